@@ -361,7 +361,7 @@ Section Target.
         | RStop s' evs StFail => IO (keep s') (fold_left put_ret evs r) (fp_next ph)
         | RStop s' evs (StSwitch p) => IO (keep s') (fold_left put_ret evs r) p
         | RStop s' evs (StRaise k) => IOHalt (keep s') (fold_left put_ret evs r) k
-        | RCrash _ => IOCrash
+        | RCrash _ _ => IOCrash
         end
     end.
 
